@@ -120,6 +120,9 @@ func runHarness(l *Loaded, fn *ssa.Function, tier int, workers int) *HarnessResu
 	if tier == 1 {
 		ex.feasTO, ex.obligTO, ex.maxPaths = 6000, 30000, 2000000
 	}
+	if v := os.Getenv("GOSMT_MAXPATHS"); v != "" {
+		ex.maxPaths = int64(atoiOr(v, 1000))
+	}
 	concreteMu.Lock()
 	first := concreteEx == nil
 	if first {
